@@ -407,6 +407,16 @@ pub fn finish(ctx: &Ctx, acc: &Acc, fin: Finish) -> i32 {
     );
     coverage.insert("histograms".into(), json!(acc.hist));
     coverage.insert("time_cap_skipped_items".into(), json!(capped));
+    if acc.get("cases_with_strided_sectors") > 0 {
+        coverage.insert(
+            "exhaustive_scope".into(),
+            json!(format!(
+                "complete enumeration of: every configuration of the stated family x every sector kept by the per-configuration execution budget (evenly strided, deterministic; {} of {} configurations had sectors strided) x every answer sequence within the deviation bound; nothing is sampled at random",
+                acc.get("cases_with_strided_sectors"),
+                acc.get("cases")
+            )),
+        );
+    }
     coverage.insert("distinct_violation_keys".into(), json!(seen_keys.len()));
     coverage.insert("known_findings_reobserved".into(), json!(known_hits.len()));
     for (k, v) in fin.extra {
